@@ -54,13 +54,15 @@ structure Obs where
   callLive : List (Nat × List Nat)  -- per BackgroundWorker call: the workers that were live when it began
   lastWait : Option Int      -- the order the shutdown waited for most recently
   minCancel : Option Int     -- the lowest order among the live workers cancelled so far
+  pend : List Nat            -- accepted workers whose start has not been seen yet
+  runs : List (Nat × List Nat)  -- per `Run` call in progress: workers known to be started before it returns
   runSnap : Bool             -- some Run has copied the WaitGroups
   lateAdd : Bool             -- a worker was accepted after that
   deriving Repr
 
 def Obs.init : Obs :=
   { live := [], sdRet := false, stopEv := false, afterStop := [], callLive := [], lastWait := none, minCancel := none,
-    runSnap := false, lateAdd := false }
+    pend := [], runs := [], runSnap := false, lateAdd := false }
 
 def findLive (l : List W) (i : Nat) : Option W := l.find? (fun w => w.id == i)
 
@@ -73,9 +75,16 @@ def upd (o : Obs) : Ev → Obs
   | .bwcall c _ _ =>
     let o := { o with callLive := (c, o.live.map W.id) :: o.callLive }
     if o.stopEv then { o with afterStop := c :: o.afterStop } else o
-  | .accept _ _ _ => { o with lateAdd := o.lateAdd || o.runSnap }
-  | .start i name order => { o with live := ⟨i, name, order⟩ :: o.live }
-  | .ret i => { o with live := o.live.filter (fun w => w.id != i) }
+  | .accept _ _ inst => { o with lateAdd := o.lateAdd || o.runSnap, pend := inst :: o.pend }
+  | .start i name order => { o with live := ⟨i, name, order⟩ :: o.live, pend := o.pend.filter (· != i) }
+  | .ret i =>
+    let live' := o.live.filter (fun w => w.id != i)
+    -- a `Run` that had to wait for `i` cannot have returned before now: it also has to wait for everything
+    -- that is live now
+    { o with live := live',
+             runs := o.runs.map (fun p => if p.2.contains i then (p.1, p.2.filter (· != i) ++ live'.map W.id) else p) }
+  | .runcall c => { o with runs := (c, o.live.map W.id ++ o.pend) :: o.runs }
+  | .runret c => { o with runs := o.runs.filter (fun p => p.1 != c) }
   | .cancel i =>
     match findLive o.live i with
     | some w => { o with minCancel := optMin o.minCancel w.order }
@@ -125,9 +134,13 @@ def chkWait (o : Obs) : Ev → Bool
   | .sdret _ => o.live.isEmpty
   | _ => true
 
-/-- The same for `Run`. -/
+/-- **Run returns after all**: when a `Run` call returns, no worker that was certainly started before that
+moment is still live.  The return is *logged after* it happened and workers may be started in between, so
+"certainly started before" is: live or accepted when the call began (`Run`'s own `Start` starts the accepted
+ones), or started before the logged return of a worker the call certainly had to wait for (closure).  In the
+model no worker at all is live at a `runret` (`C20_run_returns_after_all`), which implies this check. -/
 def chkRunWait (o : Obs) : Ev → Bool
-  | .runret _ => o.live.isEmpty
+  | .runret c => (o.runs.filter (fun p => p.1 == c)).all (fun p => p.2.all (fun i => (findLive o.live i).isNone))
   | _ => true
 
 /-- **Nothing is added or started after shutdown**: a `BackgroundWorker` call that began after the stop took
